@@ -58,7 +58,8 @@ def main():
             viol = [l for l in r.stdout.splitlines() if l.startswith("VIOLATION")]
             status = "DETECTED" if r.returncode == 1 and viol else ("MISSED" if r.returncode == 0 else f"EXIT{r.returncode}")
             nofail = any(l.endswith("no-failing-input-found") for l in viol)
-            rows.append((sid, prop, status + (" (no-failing-input-found)" if nofail else ""), (viol[0] if viol else r.stdout.strip().splitlines()[-1:] or [""])[0][:140] if viol else (r.stdout.strip().splitlines() or [r.stderr[-200:]])[-1][:140]))
+            last = (r.stdout.strip().splitlines() or [r.stderr[-200:]])[-1]
+            rows.append((sid, prop, status + (" (no-failing-input-found)" if nofail else ""), (viol[0] if viol else last)[:160]))
             sh(f"git -C {tree} checkout -- .")
     finally:
         if not in_repo:
